@@ -13,7 +13,9 @@ use std::mem;
 
 verus! {
 
+//@keep-cfg statistics
 //@include _shared/registry_preamble_a.rs
+//@include _shared/statistics_items.rs
 opaque!(Channel);
 opaque!(BusListener);
 //@item core/src/message/create_object.rs struct CreateObject
@@ -38,6 +40,7 @@ impl IntoMessage for DestroyServiceReply { open spec fn min_minor() -> u32 { 0 }
 //@include _shared/registry_preamble_b.rs
 impl Broker {
     //@include _shared/registry_inv.rs
+    //@include _shared/statistics_specs.rs
 
     // ---- remove_service -------------------------------------------------------------------------------------
     //@fn broker/src/broker.rs Broker::remove_service attr=verifier::loop_isolation(false)
@@ -95,6 +98,12 @@ impl Broker {
                             == old(state).services_destroyed@ + service_destroyed_notes(order, old(self).conns@.dom(), svc_cookie)
                 &&& final(state).rest_eq3(old(state), 10, 3, 4)
             },
+            // statistics: the service counter follows the service table, the other counters are untouched
+            old(self).stat_services_ok() ==> final(self).stat_services_ok(),
+            final(self).statistics.num_connections == old(self).statistics.num_connections,
+            final(self).statistics.num_objects == old(self).statistics.num_objects,
+            final(self).statistics.num_channels == old(self).statistics.num_channels,
+            final(self).statistics.num_bus_listeners == old(self).statistics.num_bus_listeners,
             // the invariant last (the frame facts above are then available), conjunct by conjunct (one query each
             // keeps the solver stable), then as a whole
             final(self).inv_objects(), final(self).inv_services(), final(self).inv_object_services(), final(self).inv_ownership(),
@@ -300,6 +309,12 @@ impl Broker {
                 &&& final(state).destroy_object@ == old(state).destroy_object@.push(ObjectId { uuid: u, cookie: obj_cookie })
                 &&& final(state).rest_eq_teardown(old(state))
             },
+            // statistics: object and service counters follow their tables, the other counters are untouched
+            old(self).stat_objects_ok() ==> final(self).stat_objects_ok(),
+            old(self).stat_services_ok() ==> final(self).stat_services_ok(),
+            final(self).statistics.num_connections == old(self).statistics.num_connections,
+            final(self).statistics.num_channels == old(self).statistics.num_channels,
+            final(self).statistics.num_bus_listeners == old(self).statistics.num_bus_listeners,
             // the invariant last (the frame facts above are then available), conjunct by conjunct (one query each
             // keeps the solver stable), then as a whole
             final(self).inv_objects(), final(self).inv_services(), final(self).inv_object_services(), final(self).inv_ownership(),
@@ -356,6 +371,11 @@ impl Broker {
             },
             state.destroy_object@ == old(state).destroy_object@.push(ObjectId { uuid: u, cookie: obj_cookie }),
             state.rest_eq_teardown(old(state)),
+            self.statistics.num_connections == old(self).statistics.num_connections,
+            self.statistics.num_objects == old(self).statistics.num_objects,
+            self.statistics.num_channels == old(self).statistics.num_channels,
+            self.statistics.num_bus_listeners == old(self).statistics.num_bus_listeners,
+            old(self).stat_services_ok() ==> self.stat_services_ok(),
     //@ghost loop-end 0
         proof {
             let h = it.history();
@@ -412,6 +432,12 @@ impl Broker {
                         &&& final(state).rest_eq(old(state), 7)
                     })
             },
+            // statistics (exact below usize::MAX entries)
+            old(self).stat_objects_ok() && old(self).objs@.len() < usize::MAX ==> final(self).stat_objects_ok(),
+            final(self).statistics.num_connections == old(self).statistics.num_connections,
+            final(self).statistics.num_services == old(self).statistics.num_services,
+            final(self).statistics.num_channels == old(self).statistics.num_channels,
+            final(self).statistics.num_bus_listeners == old(self).statistics.num_bus_listeners,
             // the invariant last (the frame facts above are then available), conjunct by conjunct (one query each
             // keeps the solver stable), then as a whole
             final(self).inv_objects(), final(self).inv_services(), final(self).inv_object_services(), final(self).inv_ownership(),
@@ -451,6 +477,11 @@ impl Broker {
                         &&& final(state).destroy_object@ == old(state).destroy_object@.push(ObjectId { uuid: u, cookie: req.cookie })
                     })
             },
+            old(self).stat_objects_ok() ==> final(self).stat_objects_ok(),
+            old(self).stat_services_ok() ==> final(self).stat_services_ok(),
+            final(self).statistics.num_connections == old(self).statistics.num_connections,
+            final(self).statistics.num_channels == old(self).statistics.num_channels,
+            final(self).statistics.num_bus_listeners == old(self).statistics.num_bus_listeners,
             // the invariant last (the frame facts above are then available), conjunct by conjunct (one query each
             // keeps the solver stable), then as a whole
             final(self).inv_objects(), final(self).inv_services(), final(self).inv_object_services(), final(self).inv_ownership(),
@@ -510,12 +541,18 @@ impl Broker {
                         &&& final(state).rest_eq(old(state), 9)
                     })
             },
+            // statistics (exact below usize::MAX entries)
+            old(self).stat_services_ok() && old(self).svcs@.len() < usize::MAX ==> final(self).stat_services_ok(),
+            final(self).statistics.num_connections == old(self).statistics.num_connections,
+            final(self).statistics.num_objects == old(self).statistics.num_objects,
+            final(self).statistics.num_channels == old(self).statistics.num_channels,
+            final(self).statistics.num_bus_listeners == old(self).statistics.num_bus_listeners,
             // the invariant last (the frame facts above are then available), conjunct by conjunct (one query each
             // keeps the solver stable), then as a whole
             final(self).inv_objects(), final(self).inv_services(), final(self).inv_object_services(), final(self).inv_ownership(),
             final(self).inv_calls(), final(self).inv_callers(), final(self).inv_conns(), final(self).inv_subs(),
             final(self).reg_winv(), final(self).reg_inv(),
-    //@ghost after `state.push_create_service(ServiceId::new(object_id, req.uuid, svc_cookie));`
+    //@ghost after `self.statistics.num_services = self.statistics.num_services.saturating_add(1);`
         proof {
             let u = old(self).obj_uuids@[req.object_cookie];
             let sc = svc_cookie;
@@ -591,6 +628,11 @@ impl Broker {
                         &&& final(state).rest_eq(old(state), 9)
                     })
             },
+            old(self).stat_services_ok() && old(self).svcs@.len() < usize::MAX ==> final(self).stat_services_ok(),
+            final(self).statistics.num_connections == old(self).statistics.num_connections,
+            final(self).statistics.num_objects == old(self).statistics.num_objects,
+            final(self).statistics.num_channels == old(self).statistics.num_channels,
+            final(self).statistics.num_bus_listeners == old(self).statistics.num_bus_listeners,
             // the invariant last (the frame facts above are then available), conjunct by conjunct (one query each
             // keeps the solver stable), then as a whole
             final(self).inv_objects(), final(self).inv_services(), final(self).inv_object_services(), final(self).inv_ownership(),
@@ -599,7 +641,7 @@ impl Broker {
     //@ghost before#1/3 `return send!(`
         // the occupied entry is released unused: the table is what it was
         proof { assert(self.svcs@ =~= old(self).svcs@); }
-    //@ghost after `state.push_create_service(ServiceId::new(object_id, req.uuid, svc_cookie));`
+    //@ghost after `self.statistics.num_services = self.statistics.num_services.saturating_add(1);`
         proof {
             let u = old(self).obj_uuids@[req.object_cookie];
             let sc = svc_cookie;
@@ -657,6 +699,11 @@ impl Broker {
                                 ServiceId { object_id: old(self).svc_uuids@[req.cookie].0, uuid: k.1, cookie: req.cookie })
                     })
             },
+            old(self).stat_services_ok() ==> final(self).stat_services_ok(),
+            final(self).statistics.num_connections == old(self).statistics.num_connections,
+            final(self).statistics.num_objects == old(self).statistics.num_objects,
+            final(self).statistics.num_channels == old(self).statistics.num_channels,
+            final(self).statistics.num_bus_listeners == old(self).statistics.num_bus_listeners,
             // the invariant last (the frame facts above are then available), conjunct by conjunct (one query each
             // keeps the solver stable), then as a whole
             final(self).inv_objects(), final(self).inv_services(), final(self).inv_object_services(), final(self).inv_ownership(),
